@@ -156,7 +156,10 @@ vfps::ElectricField::updateCSR( const frequency_t cutoff_frequency)
         #endif // INOVESA_USE_OPENCL
         {
             // copy bunch profile to be padded
+            // (padding has to be cleared: it may hold another bunch's
+            // profile from a previous call of padBunchProfiles())
             auto bp = _phasespace->getProjection(0)[n];
+            std::fill_n(_bp_padded,_nmax,integral_t(0));
             std::copy_n(bp.origin(),PhaseSpace::nx,_bp_padded);
 
             //FFT charge density
@@ -255,6 +258,8 @@ vfps::meshaxis_t *vfps::ElectricField::wakePotential()
 void vfps::ElectricField::padBunchProfiles()
 {
     auto bp= _phasespace->getProjection(0);
+    // clear what is not overwritten below (e.g. the profile updateCSR() left)
+    std::fill_n(_bp_padded,_nmax,integral_t(0));
     for (uint32_t b=0; b<PhaseSpace::nb; b++) {
         std::copy_n( bp.origin()+b*PhaseSpace::nx
                    , PhaseSpace::nx
